@@ -13,7 +13,9 @@ AfterOk  == AfterCmd /\ LastH.rc = 0
 SetMin(S) == CHOOSE x \in S : \A y \in S : x <= y
 SetMax(S) == CHOOSE x \in S : \A y \in S : x >= y
 
-UserOwned(n) == fs[n].ex /\ fs[n].own = "user"
+\* the user's file: written by hand, or a redo-produced file whose rule vanished and
+\* which redo has since adopted as a source (deps.rs:123-135, builder.rs:142-157)
+UserOwned(n) == fs[n].ex /\ (fs[n].own = "user" \/ n \in gh.src)
 
 \* the rule redo must use for t now: first existing candidate (C13)
 ChosenDo(t) ==
@@ -37,7 +39,7 @@ Ideal(n) ==
     ELSE LET ops == RuleOps(n) IN
          IF OutIdx(ops) = {} THEN NoVal
          ELSE LET o == ops[SetMax(OutIdx(ops))] IN
-              [n |-> n, k |-> ChosenDo(n), v |-> DoVer(ChosenDo(n)),
+              [n |-> n, k |-> ChosenDo(n), v |-> IF o.rc # 0 THEN o.rc ELSE DoVer(ChosenDo(n)),
                d |-> [i \in 1..Len(o.args) |-> Ideal(o.args[i])]]
 
 \* files a from-scratch build of n consults
@@ -146,6 +148,15 @@ TargetsSourcesPartition ==
 \* lower bound: whatever redo-ifchange would run is listed
 OodLower == Quiet => \A t \in QueryOut("targets", runid + 1) :
                         (MustRun(t) /\ ~Stamped(t)) => t \in QueryOut("ood", runid + 1)
+
+\* upper bound: anything listed beyond the targets that will really run depends,
+\* directly or indirectly, on a checksummed target that must run
+RECURSIVE SeenClo(_, _)
+SeenClo(S, k) == IF k = 0 THEN S
+                 ELSE SeenClo(S \cup UNION {{d.n : d \in gh.seen[n].deps} \cap Plain : n \in S \cap Plain}, k - 1)
+OodUpper == Quiet => \A t \in QueryOut("ood", runid + 1) :
+                \/ MustRun(t)
+                \/ \E m \in SeenClo({t}, Cardinality(Plain)) \cap Plain : Stamped(m) /\ MustRun(m)
 
 OodEmptyAfterBuild ==
     AfterOk => \A n \in Closure({LastH.targs[i] : i \in 1..Len(LastH.targs)}) \cap Plain :
